@@ -196,7 +196,11 @@ def check(P: Project, R: Report) -> None:
             return "open:" + subst_text(call.args[0], st)
         return None
 
-    la, lo = run_paths(ld.node, event_of=lev, fallible=True)
+    try:
+        la, lo = run_paths(ld.node, event_of=lev, fallible=True)
+    except AnalysisError:
+        # (a scanner or a validation loop read in at its call site: same economy as for the entry points above)
+        la, lo = run_paths(ld.node, event_of=lev, fallible=True, gc_dead_terms=True, forget_at_loop_back=True)
     la.parents = {**A.exception_parents(P)}
     R.paths += len(lo.ret) + len(lo.exc)
     R.need(lo.ret, "load_config has no returning path")
